@@ -225,6 +225,24 @@ func c20Prepare(r *fw.Rand, p *ref.Packet) (*rtp.Packet, error) {
 	if err != nil {
 		return nil, err
 	}
+	if pk.Extension && r.Chance(1, 6) {
+		// an empty extension list that still has capacity (all elements deleted, as after reuse)
+		for _, id := range pk.GetExtensionIDs() {
+			_ = pk.DelExtension(id)
+		}
+	} else if pk.Extension && r.Chance(1, 8) {
+		// a header obtained by decoding into a receiver that was used before
+		if wire, err := pk.Marshal(); err == nil {
+			var re rtp.Packet
+			big := &rtp.Packet{}
+			_ = big.Unmarshal([]byte{0x90, 0, 0, 1, 0, 0, 0, 2, 0, 0, 0, 3, 0xBE, 0xDE, 0, 2, 0x10, 1, 0x20, 2, 0x30, 3, 0, 0})
+			re = *big
+			if re.Unmarshal(wire) == nil {
+				re.Payload = append([]byte(nil), re.Payload...)
+				pk = &re
+			}
+		}
+	}
 	if r.Chance(1, 3) {
 		// extension values whose backing arrays have spare capacity
 		for _, id := range pk.GetExtensionIDs() {
